@@ -1,7 +1,7 @@
 (* family 11: reserved CFDP messages (MessageToUserTlv.is_reserved/to_reserved, ReservedCfdpMessage) *)
 From Coq Require Import ZArith List Bool.
-From SP Require Import Base.Result Base.Bytes Run.Marshal Run.DispTlv Model.Lv Model.Tlv Model.MsgToUser
-  Spec.TlvSpec Spec.MsgSpec.
+From SP Require Import Base.Result Base.Bytes Run.Marshal Run.DispTlv Model.Lv Model.Tlv Model.TlvHist Model.MsgToUser
+  Model.MsgHist Spec.TlvSpec Spec.MsgSpec.
 Import ListNotations.
 Open Scope Z_scope.
 
@@ -23,8 +23,81 @@ Definition pipeline {A} (data : bytes) (g : tlv -> res (option A)) (f : A -> arg
 
 Definition opt_z (o : option Z) : Z := match o with Some x => x | None => -1 end.
 
+(* the nine builders on marshalled arguments (argument conventions of ops 1100..1108) *)
+Definition build_msg (k : Z) (a : args) : res tlv :=
+  if k =? 0 then
+    do id <- ubf_new (int 0 0 a) (int 0 1 a);
+    do s <- lv_new (lst 1 a); do d <- lv_new (lst 2 a);
+    proxy_put_request id s d
+  else if k =? 1 then proxy_cancel_request
+  else if k =? 2 then proxy_closure_request (int 0 0 a)
+  else if k =? 3 then proxy_transmission_mode (int 0 0 a)
+  else if k =? 4 then
+    do s <- ubf_new (int 0 0 a) (int 0 1 a); do q <- ubf_new (int 0 2 a) (int 0 3 a);
+    originating_transaction_id s q
+  else if k =? 5 then do p <- lv_new (lst 0 a); do n <- lv_new (lst 1 a); directory_listing_request p n
+  else if k =? 6 then
+    do p <- lv_new (lst 1 a); do n <- lv_new (lst 2 a); directory_listing_response (int 0 0 a) p n
+  else if k =? 7 then directory_listing_parameters (int 0 0 a) (int 0 1 a)
+  else if k =? 8 then proxy_put_response (int 0 0 a) (int 0 1 a) (int 0 2 a)
+  else Err EOther.
+
+(* ---- live-object histories (Model/MsgHist.v) ----
+   args: [kind; flavour]; three argument lists (conventions of the builder / constructor); then one list per
+   operation.  kind 0..8 the builders, 9 ReservedCfdpMessage(type, value), 10 MessageToUserTlv(value),
+   11 MessageToUserTlv.unpack(data), 12 MessageToUserTlv.from_tlv(CfdpTlv(type, value)),
+   13 MessageToUserTlv.unpack(data).to_reserved_msg_tlv() *)
+Definition mnew (kind : Z) (a : args) : res mobj :=
+  if kind <=? 8 then do t <- build_msg kind a; Ok {| mo_reserved := true; mo_tlv := t |}
+  else if kind =? 9 then do t <- reserved_new (int 0 0 a) (lst 1 a); Ok {| mo_reserved := true; mo_tlv := t |}
+  else if kind =? 10 then do t <- msg_new (lst 0 a); Ok {| mo_reserved := false; mo_tlv := t |}
+  else if kind =? 11 then do t <- msg_unpack (lst 0 a); Ok {| mo_reserved := false; mo_tlv := t |}
+  else if kind =? 12 then
+    do g <- tlv_new (int 0 0 a) (lst 1 a); do t <- msg_from_tlv g; Ok {| mo_reserved := false; mo_tlv := t |}
+  else if kind =? 13 then
+    do o <- decode_reserved (lst 0 a);
+    match o with Some t => Ok {| mo_reserved := true; mo_tlv := t |} | None => Err EOther end
+  else Err EOther.
+
+Definition mop_of (l : list Z) : mop :=
+  match l with
+  | 0 :: _ => MPack
+  | 1 :: _ => MClassify
+  | 2 :: k :: _ => MParser k
+  | 3 :: _ => MToGeneric
+  | 4 :: _ => MIsReserved
+  | 5 :: _ => MToReserved
+  | 6 :: ty :: v => MSetTlv ty v
+  | 7 :: x :: _ => MSubType x
+  | 8 :: x :: _ => MSetType x
+  | 9 :: v => MSetValue v
+  | 10 :: x :: _ => MSetPacketLen x
+  | _ => MBad
+  end.
+
+Definition rl (r : res (list Z)) : list Z :=
+  match r with Ok b => 0 :: b | Err e => [1; err_canon e] end.
+
+Definition run_msg_history (a : args) : args :=
+  ret (fun o => mview o ++ flat_map (fun rv => rl (fst rv) :: snd rv) (mrun o (map mop_of (skipn 4 a))))
+      (mnew (int 0 0 a) (skipn 1 a)).
+
+(* two messages decoded one after the other; the first one's parameters are looked at again afterwards (the
+   parameter objects handed out first, and a second call of the parser on the first message) *)
+Definition decode_get (data : bytes) (k : Z) : res (list Z) :=
+  do o <- decode_reserved data;
+  match o with None => Ok [0] | Some r => parser_out k r end.
+
+Definition run_two_decodes (a : args) : args :=
+  ret (fun x => x)
+    (do x <- decode_get (lst 0 a) (int 2 0 a);
+     do y <- decode_get (lst 1 a) (int 2 1 a);
+     Ok [x; y; x; x]).
+
 Definition run_msg (op : Z) (a : args) : args :=
   match op with
+  | 1160 => run_msg_history a
+  | 1161 => run_two_decodes a
   | 1100 => ret msg_view
               (do id <- ubf_new (int 0 0 a) (int 0 1 a);
                do s <- lv_new (lst 1 a); do d <- lv_new (lst 2 a);
